@@ -310,7 +310,8 @@ func runC02(c *core.Ctx) {
 						for _, b2 := range fn.Blocks {
 							for _, i2 := range b2.Instrs {
 								if c2, ok := i2.(*ssa.Call); ok && c2.Common().StaticCallee() == nextTok {
-									if core.InstrDominates(c2, cp) {
+									// may-precede: a token advance on any path to the read spoils it (the explicit `+` is skipped conditionally)
+									if core.InstrDominates(c2, cp) || (c2.Block() != cp.Block() && core.Reaches(c2.Block(), cp.Block())) {
 										good = false
 									}
 								}
@@ -427,6 +428,7 @@ func runC02(c *core.Ctx) {
 	checkDispatchSpec(c, tokName)
 	checkParserFields(c)
 	checkEscapeReach(c)
+	checkDuplicateCase(c)
 }
 
 // closureTarget: the Parser method a registered closure (or bound method wrapper) calls, and the constant bool it passes (if any).
@@ -766,6 +768,29 @@ func checkEscapeReach(c *core.Ctx) {
 						guarded = true
 					}
 				}
+				// ... and under nothing else: every other condition the call depends on may only say "the literal contains a %"
+				cd := core.NewCtrlDeps(fn)
+				for _, e := range cd.Transitive(b) {
+					cond := core.BranchCond(e.From)
+					if cond == nil {
+						continue
+					}
+					isOffset := false
+					for x := range core.BackSlice(cond) {
+						if f := core.FieldOf(x); f != nil && f.Name() == "Offset" {
+							isOffset = true
+						}
+					}
+					if isOffset {
+						continue
+					}
+					k2 := key + "|extra-condition"
+					if containsPercentTest(cond, e.Idx) {
+						c.Discharge("escape", k2, cond.Pos(), "fast path: decoder skipped only when the literal has no `%`")
+					} else {
+						c.Report("escape", k2, cond.Pos(), "escape decoding of a double-quoted string depends on a further condition that is not `the literal contains %`: some double-quoted strings keep their escapes undecoded")
+					}
+				}
 				if guarded {
 					c.Discharge("escape", key, in.Pos(), "only under Token.Offset == 2 (double-quoted string)")
 				} else {
@@ -776,5 +801,99 @@ func checkEscapeReach(c *core.Ctx) {
 	}
 	if n == 0 {
 		c.Report("escape", "no-call", dec.Pos(), "decodeStringEscapes is never called: escapes in double-quoted strings are not decoded")
+	}
+}
+
+// containsPercentTest: cond, taken on the successor index succ, is exactly "the string contains '%'":
+// strings.Contains/ContainsRune/ContainsAny(x, "%") == true, or strings.Index*(x, '%') >= 0 / != -1 / > -1.
+func containsPercentTest(cond ssa.Value, succ int) bool {
+	isPct := func(v ssa.Value) bool {
+		k, ok := v.(*ssa.Const)
+		if !ok || k.Value == nil {
+			return false
+		}
+		if k.Value.Kind() == constant.String {
+			return constant.StringVal(k.Value) == "%"
+		}
+		if n, ok := core.ConstIntValue(v); ok {
+			return n == '%'
+		}
+		return false
+	}
+	stringsCall := func(v ssa.Value, prefix string) bool {
+		call, ok := v.(*ssa.Call)
+		if !ok {
+			return false
+		}
+		cal := call.Common().StaticCallee()
+		return cal != nil && cal.Pkg != nil && cal.Pkg.Pkg.Path() == "strings" && strings.HasPrefix(cal.Name(), prefix) && len(call.Common().Args) == 2 && isPct(call.Common().Args[1])
+	}
+	if stringsCall(cond, "Contains") {
+		return succ == 0
+	}
+	bo, ok := cond.(*ssa.BinOp)
+	if !ok || !stringsCall(bo.X, "Index") {
+		return false
+	}
+	k, isK := core.ConstIntValue(bo.Y)
+	if !isK {
+		return false
+	}
+	switch {
+	case bo.Op == token.GEQ && k == 0, bo.Op == token.GTR && k == -1, bo.Op == token.NEQ && k == -1:
+		return succ == 0
+	case bo.Op == token.LSS && k == 0, bo.Op == token.EQL && k == -1, bo.Op == token.LEQ && k == -1:
+		return succ == 1
+	}
+	return false
+}
+
+// checkDuplicateCase (dup.case): two case clauses are duplicates only when operator AND label agree
+// (`case "x":` and `case ~ "x":` are different tests); a rejection that ignores either makes a valid program unparseable.
+func checkDuplicateCase(c *core.Ctx) {
+	prog := c.Prog
+	fn := prog.SSAFunc("parser", "Parser.ParseSwitchStatement")
+	if fn == nil {
+		c.MissingAnchor("dup.case", "Parser.ParseSwitchStatement")
+		return
+	}
+	cd := core.NewCtrlDeps(fn)
+	n := 0
+	for _, b := range fn.Blocks {
+		for _, in := range b.Instrs {
+			call, ok := in.(*ssa.Call)
+			if !ok {
+				continue
+			}
+			cal := call.Common().StaticCallee()
+			if cal == nil || cal.Name() != "DuplicateCase" {
+				continue
+			}
+			n++
+			hasOp, hasLabel := false, false
+			for _, e := range cd.Transitive(b) {
+				cond := core.BranchCond(e.From)
+				if cond == nil {
+					continue
+				}
+				for x := range core.BackSlice(cond) {
+					if f := core.FieldOf(x); f != nil && f.Name() == "Operator" {
+						hasOp = true
+					}
+					if f := core.FieldOf(x); f != nil && f.Name() == "Right" {
+						hasLabel = true
+					}
+				}
+			}
+			key := fmt.Sprintf("ParseSwitchStatement|DuplicateCase#%d", n)
+			if hasOp && hasLabel {
+				c.Discharge("dup.case", key, in.Pos(), "rejected only when operator and label both repeat")
+			} else {
+				c.Report("dup.case", key, in.Pos(), fmt.Sprintf("the duplicate-case rejection does not depend on both the case operator (%v) and the label (%v): `case \"x\":` next to `case ~ \"x\":` (or two different labels) is refused although the grammar allows it", hasOp, hasLabel))
+			}
+		}
+	}
+	if n == 0 {
+		c.Discharge("dup.case", "ParseSwitchStatement|none", fn.Pos(), "no duplicate-case rejection (nothing valid can be refused by it)")
 	}
 }
